@@ -109,7 +109,9 @@ fn main() {
                     let wait = rng.chance(1, 2);
                     let (_, wr) = live.remove(i);
                     let res = guarded(|| if wait { wr.wait_merging_threads() } else { drop(wr); Ok(()) });
-                    codes.push(code_of(&res));
+                    // wait_merging_threads() of a writer whose worker was killed reports that worker's error: the lock
+                    // specification is about the lock (released either way), so only a panic counts here
+                    codes.push(if res.is_err() { 9 } else { 0 });
                     ops.push(LOp::DropW { w, wait });
                 } else {
                     // kill the writer's pipeline with a storage fault; the object stays alive.  Two ways: the worker dies inside
